@@ -15,10 +15,10 @@ import (
 )
 
 func init() {
-	register(&Rule{ID: "P-JSON-LITERAL", Props: []string{"C16", "C04", "C05"}, Floor: 3,
+	register(&Rule{ID: "P-JSON-LITERAL", Props: []string{"C16", "C04", "C05", "C08"}, Floor: 3,
 		Doc: "a backtick literal is decoded from the text with every escaped backtick replaced (strings.ReplaceAll), by a json.Decoder on which UseNumber is called before Decode, and a success is returned only after Decoder.Token reported io.EOF (nothing follows the value); json.Unmarshal is used only into *string or *json.Number",
 		Run: rulePJSONLiteral})
-	register(&Rule{ID: "P-ESCAPE-TABLE", Props: []string{"C16", "C04"}, Floor: 3,
+	register(&Rule{ID: "P-ESCAPE-TABLE", Props: []string{"C16", "C04", "C11"}, Floor: 3,
 		Doc: "raw strings unescape exactly \\' and \\\\ and keep every other backslash sequence verbatim; quoted identifiers decode exactly the JSON escapes \\\" \\/ \\\\ \\b \\f \\n \\r \\t and \\uXXXX (with surrogate pairs) and reject every other escape",
 		Run: rulePEscapeTable})
 	register(&Rule{ID: "E-CLAMP-SIBLINGS", Props: []string{"C12"}, Floor: 0,
